@@ -342,6 +342,47 @@ theorem shape_eq_addShape (n : Nat) (hn : Pixman.Lemmas.TrapRows.Depth n) (img :
         · exact Or.inr (Or.inr ⟨r6 (by omega) h.1 h.2, h.1⟩)
   · exact hx1
 
+/-! ### whole-pixel offsets commute with the sample count -/
+
+/-- the line moved by `(dx, dy)` -/
+def moveLine (e : EdgeLine) (dx dy : Int) : EdgeLine := ⟨e.xTop + dx, e.yTop + dy, e.xBot + dx, e.yBot + dy⟩
+
+/-- the shape moved by `(dx, dy)` -/
+def moveShape (s : Shape) (dx dy : Int) : Shape := ⟨s.top + dy, s.bottom + dy, moveLine s.left dx dy, moveLine s.right dx dy⟩
+
+theorem snapX_move (e : EdgeLine) (dx dy y : Int) : (moveLine e dx dy).snapX (y + dy) = e.snapX y + dx := by
+  have h1 : y + dy - (e.yTop + dy) = y - e.yTop := by omega
+  have h2 : e.xBot + dx - (e.xTop + dx) = e.xBot - e.xTop := by omega
+  have h3 : e.yBot + dy - (e.yTop + dy) = e.yBot - e.yTop := by omega
+  simp only [EdgeLine.snapX, moveLine, h1, h2, h3]
+  split <;> omega
+
+theorem rowPos_move (n : Nat) (r oy : Int) (k : Nat) : rowPos n (r + oy) k = rowPos n r k + oy * 65536 := by
+  simp only [rowPos, Int.add_mul]; omega
+
+theorem colPos_move (n : Nat) (c ox : Int) (j : Nat) : colPos n (c + ox) j = colPos n c j + ox * 65536 := by
+  simp only [colPos, Int.add_mul]; omega
+
+theorem rowCount_move (n : Nat) (lx rx c ox : Int) :
+    rowCount n (lx + ox * 65536) (rx + ox * 65536) (c + ox) = rowCount n lx rx c := by
+  unfold rowCount
+  congr 1
+  funext j
+  rw [colPos_move]
+  apply decide_eq_decide.mpr
+  omega
+
+/-- R4, whole-pixel offsets: moving a shape by whole pixels moves its sample counts with it -/
+theorem pixelCount_move (n : Nat) (s : Shape) (ox oy c r : Int) :
+    pixelCount n (moveShape s (ox * 65536) (oy * 65536)) (c + ox) (r + oy) = pixelCount n s c r := by
+  unfold pixelCount
+  apply Pixman.Lemmas.TrapShape.sum_map_congr
+  intro k _
+  simp only [moveShape, rowPos_move, snapX_move, rowCount_move]
+  by_cases h : s.top ≤ rowPos n r k ∧ rowPos n r k < s.bottom
+  · rw [if_pos h, if_pos (by omega)]
+  · rw [if_neg h, if_neg (by omega)]
+
 /-! ### the entry points (offsets 0) -/
 
 def InI32 (v : Int) : Prop := -2147483648 ≤ v ∧ v ≤ 2147483647
@@ -420,5 +461,245 @@ theorem addTrap_eq_addShape (n : Nat) (hn : Pixman.Lemmas.TrapRows.Depth n) (img
     rfl
   simp only [addTrap, hsetup]
   exact shape_eq_addShape n hn img hwf hh (trapShape tr) c3 c6 hbt hl hr hlr hrr hx1
+
+/-! ### offsets: `pixman_rasterize_trapezoid (image, trap, x_off, y_off)` rasterises the moved trapezoid -/
+
+def movePoint (p : Point) (dx dy : Int) : Point := ⟨p.x + dx, p.y + dy⟩
+def moveSide (l : Line) (dx dy : Int) : Line := ⟨movePoint l.p1 dx dy, movePoint l.p2 dx dy⟩
+/-- the trapezoid moved by `(dx, dy)` -/
+def moveTz (tr : Trapezoid) (dx dy : Int) : Trapezoid :=
+  ⟨tr.top + dy, tr.bottom + dy, moveSide tr.left dx dy, moveSide tr.right dx dy⟩
+
+theorem valid_move (tr : Trapezoid) (dx dy : Int) : (moveTz tr dx dy).valid = tr.valid := by
+  simp only [Trapezoid.valid, moveTz, moveSide, movePoint]
+  have h1 : (tr.left.p1.y + dy != tr.left.p2.y + dy) = (tr.left.p1.y != tr.left.p2.y) := by
+    rw [Bool.eq_iff_iff]; simp only [bne_iff_ne, ne_eq]; omega
+  have h2 : (tr.right.p1.y + dy != tr.right.p2.y + dy) = (tr.right.p1.y != tr.right.p2.y) := by
+    rw [Bool.eq_iff_iff]; simp only [bne_iff_ne, ne_eq]; omega
+  rw [h1, h2]
+  congr 1
+  apply decide_eq_decide.mpr
+  omega
+
+theorem lineFixedEdgeInit_move (n : Nat) (y : Int) (l : Line) (xOff yOff : Int)
+    (hx : InI32 (xOff * 65536)) (hy : InI32 (yOff * 65536))
+    (h1 : InI32 (l.p1.x + xOff * 65536)) (h2 : InI32 (l.p1.y + yOff * 65536))
+    (h3 : InI32 (l.p2.x + xOff * 65536)) (h4 : InI32 (l.p2.y + yOff * 65536)) :
+    lineFixedEdgeInit n y l.p1.x l.p1.y l.p2.x l.p2.y xOff yOff =
+      lineFixedEdgeInit n y (l.p1.x + xOff * 65536) (l.p1.y + yOff * 65536) (l.p2.x + xOff * 65536) (l.p2.y + yOff * 65536) 0 0 := by
+  have ex : intToFixed xOff = xOff * 65536 := wrap32_id _ hx.1 hx.2
+  have ey : intToFixed yOff = yOff * 65536 := wrap32_id _ hy.1 hy.2
+  simp only [lineFixedEdgeInit, intToFixed_zero, ex, ey, wrap32_add_zero _ h1, wrap32_add_zero _ h2, wrap32_add_zero _ h3,
+    wrap32_add_zero _ h4, wrap32_id _ h1.1 h1.2, wrap32_id _ h2.1 h2.2, wrap32_id _ h3.1 h3.2, wrap32_id _ h4.1 h4.2]
+  by_cases h : l.p1.y ≤ l.p2.y
+  · rw [if_pos h, if_pos (by omega)]
+  · rw [if_neg h, if_neg (by omega)]
+
+/-- with offsets that do not wrap, the trapezoid moved by `(x_off, y_off)` pixels is rasterised -/
+theorem rasterizeTrapezoid_offsets (n : Nat) (img : Img) (tr : Trapezoid) (xOff yOff : Int)
+    (hx : InI32 (xOff * 65536)) (hy : InI32 (yOff * 65536))
+    (htop : InI32 (tr.top + yOff * 65536)) (hbot : InI32 (tr.bottom + yOff * 65536))
+    (hc : InI32 (tr.left.p1.x + xOff * 65536) ∧ InI32 (tr.left.p1.y + yOff * 65536) ∧
+          InI32 (tr.left.p2.x + xOff * 65536) ∧ InI32 (tr.left.p2.y + yOff * 65536) ∧
+          InI32 (tr.right.p1.x + xOff * 65536) ∧ InI32 (tr.right.p1.y + yOff * 65536) ∧
+          InI32 (tr.right.p2.x + xOff * 65536) ∧ InI32 (tr.right.p2.y + yOff * 65536)) :
+    rasterizeTrapezoid n img tr xOff yOff = rasterizeTrapezoid n img (moveTz tr (xOff * 65536) (yOff * 65536)) 0 0 := by
+  obtain ⟨c1, c2, c3, c4, c5, c6, c7, c8⟩ := hc
+  have ey : intToFixed yOff = yOff * 65536 := wrap32_id _ hy.1 hy.2
+  have hs : trapezoidSetup n img.height tr xOff yOff =
+      trapezoidSetup n img.height (moveTz tr (xOff * 65536) (yOff * 65536)) 0 0 := by
+    simp only [trapezoidSetup, valid_move, intToFixed_zero, ey]
+    simp only [moveTz, moveSide, movePoint, wrap32_add_zero _ htop, wrap32_add_zero _ hbot, wrap32_id _ htop.1 htop.2,
+      wrap32_id _ hbot.1 hbot.2,
+      lineFixedEdgeInit_move n _ tr.left xOff yOff hx hy c1 c2 c3 c4,
+      lineFixedEdgeInit_move n _ tr.right xOff yOff hx hy c5 c6 c7 c8]
+  simp only [rasterizeTrapezoid, hs]
+
+/-! ### nothing to draw; lists of shapes -/
+
+/-- a shape without a sample row inside the image adds nothing -/
+theorem addShape_of_no_rows (n : Nat) (hn : Pixman.Lemmas.TrapRows.Depth n) (img : Img) (hwf : ImgWF n img) (s : Shape)
+    (h : ∀ g, IsGridRow n g → 0 ≤ g / 65536 → g / 65536 < (img.height : Int) → ¬ (s.top ≤ g ∧ g < s.bottom)) :
+    addShape n img.width img.height img.rows s = img.rows := by
+  rw [addShape_eq_addSpans]
+  apply rows_ext _ _ img.height img.width (by simp [addSpans]) hwf.rows_size (fun r hr => by simp [addSpans, hr]) hwf.cols
+  intro ρ c hρ hc
+  rw [addSpans_px _ _ _ _ _ _ _ _ _ _ hρ hc]
+  rw [sum_map_congr _ _ (fun _ => 0), sum_map_zero, pixelValue_zero _ _ (hwf.vals ρ c)]
+  intro k hk
+  have hk' : (k : Int) < nYFrac n := by have := List.mem_range.mp hk; omega
+  have hg : IsGridRow n (rowPos n ρ k) := ⟨ρ, k, hk', rfl⟩
+  have hd := rowPos_div n hn ρ k hk'
+  rw [if_neg (h _ hg (by omega) (by omega))]
+
+theorem between_rows (n : Nat) (hn : Pixman.Lemmas.TrapRows.Depth n) (T B g : Int) (hg : IsGridRow n g)
+    (hT0 : 0 ≤ T) (hTg : T ≤ g) (hgB : g < B) (hB2 : B ≤ 2147483647) (hglt : g < 2147418112) :
+    sampleCeilY T n ≤ g ∧ g ≤ sampleFloorY B n := by
+  have hc : 0 ≤ yFracLast n ∧ yFracFirst n < 65536 := by
+    rcases hn with h | h | h <;> subst h <;> simp only [yFracLast, yFracFirst] <;> omega
+  exact ⟨(sampleCeilY_grid n hn T (by omega)).2.2 g hg hTg, (sampleFloorY_grid n hn B (by omega) hB2).2.2 g hg hgB⟩
+
+theorem no_rows_aux (n : Nat) (hn : Pixman.Lemmas.TrapRows.Depth n) (height : Nat) (hh : height ≤ 32767) (top bottom T B : Int)
+    (htop : -2147483648 ≤ top ∧ top ≤ 2147483647) (hbot : -2147483648 ≤ bottom ∧ bottom ≤ 2147483647)
+    (hT : T = if top < 0 then 0 else top)
+    (hB : B = if bottom / 65536 ≥ (height : Int) then (height : Int) * 65536 - 1 else bottom)
+    (hbt : sampleFloorY B n < sampleCeilY T n) :
+    ∀ g, IsGridRow n g → 0 ≤ g / 65536 → g / 65536 < (height : Int) → ¬ (top ≤ g ∧ g < bottom) := by
+  intro g hg hg0 hgh hin
+  have hfr := grid_frac_lt n hn g hg
+  have := between_rows n hn T B g hg (by rw [hT]; split <;> omega) (by rw [hT]; split <;> omega)
+    (by rw [hB]; split <;> omega) (by rw [hB]; split <;> omega) (by omega)
+  omega
+
+/-- when the last sample row lies above the first one, no sample row of the image is inside `[top, bottom)` -/
+theorem no_rows (n : Nat) (hn : Pixman.Lemmas.TrapRows.Depth n) (height : Nat) (hh : height ≤ 32767) (top bottom : Int)
+    (htop : -2147483648 ≤ top ∧ top ≤ 2147483647) (hbot : -2147483648 ≤ bottom ∧ bottom ≤ 2147483647)
+    (hbt : lastRow n height bottom < firstRow n top) :
+    ∀ g, IsGridRow n g → 0 ≤ g / 65536 → g / 65536 < (height : Int) → ¬ (top ≤ g ∧ g < bottom) := by
+  have hw1 : intToFixed (height : Int) = (height : Int) * 65536 := wrap32_id _ (by omega) (by omega)
+  have hw2 : wrap32 (intToFixed (height : Int) - 1) = (height : Int) * 65536 - 1 := by
+    rw [hw1]; exact wrap32_id _ (by omega) (by omega)
+  simp only [firstRow, lastRow, hw2, fixedToInt] at hbt
+  exact no_rows_aux n hn height hh top bottom _ _ htop hbot rfl rfl hbt
+
+/-- `pixman_rasterize_trapezoid (image, trap, 0, 0)` when no sample row of the image is inside: nothing is
+    drawn, and the Spec adds nothing -/
+theorem rasterizeTrapezoid_nothing (n : Nat) (hn : Pixman.Lemmas.TrapRows.Depth n) (img : Img) (hwf : ImgWF n img)
+    (hh : img.height ≤ 32767) (tr : Trapezoid) (htop : InI32 tr.top) (hbot : InI32 tr.bottom)
+    (hbt : lastRow n img.height tr.bottom < firstRow n tr.top) :
+    rasterizeTrapezoid n img tr 0 0 = img ∧
+    addShape n img.width img.height img.rows (Pixman.Lemmas.TrapTri.shapeOf tr) = img.rows := by
+  constructor
+  · have hsetup : trapezoidSetup n img.height tr 0 0 = none := by
+      simp only [trapezoidSetup, intToFixed_zero, wrap32_add_zero _ htop, wrap32_add_zero _ hbot]
+      split
+      · rfl
+      · have hbt' := hbt
+        simp only [firstRow, lastRow] at hbt'
+        rw [if_neg (by omega)]
+    simp only [rasterizeTrapezoid, hsetup]
+  · exact addShape_of_no_rows n hn img hwf _ (no_rows n hn img.height hh tr.top tr.bottom htop hbot hbt)
+
+theorem imgWF_addShape (n : Nat) (img : Img) (hwf : ImgWF n img) (s : Shape) :
+    ImgWF n { img with rows := addShape n img.width img.height img.rows s } := by
+  refine ⟨by simp [addShape], fun r hr => by simp only; simp [addShape, hr], hwf.hw, ?_⟩
+  intro r c
+  simp only
+  by_cases hr : r < img.height
+  · by_cases hc : c < img.width
+    · rw [addShape_eq_addSpans, addSpans_px _ _ _ _ _ _ _ _ _ _ hr hc]; exact pixelValue_le ..
+    · simp [px, addShape, hr, hc]
+  · simp [px, addShape, hr]
+
+/-- a trapezoid in the region where the rasteriser is exact (offsets 0) -/
+def TzExact (n : Nat) (height : Nat) (tr : Trapezoid) : Prop :=
+  InI32 tr.top ∧ InI32 tr.bottom ∧
+  (InI32 tr.left.p1.x ∧ InI32 tr.left.p1.y ∧ InI32 tr.left.p2.x ∧ InI32 tr.left.p2.y ∧
+   InI32 tr.right.p1.x ∧ InI32 tr.right.p1.y ∧ InI32 tr.right.p2.x ∧ InI32 tr.right.p2.y) ∧
+  (lastRow n height tr.bottom < firstRow n tr.top ∨
+   (lastRow n height tr.bottom ≥ firstRow n tr.top ∧
+    InitOK n (firstRow n tr.top) (Pixman.Lemmas.TrapTri.lineOf tr.left) ∧
+    InitOK n (firstRow n tr.top) (Pixman.Lemmas.TrapTri.lineOf tr.right) ∧
+    RowsOK n (firstRow n tr.top) (lastRow n height tr.bottom) (Pixman.Lemmas.TrapTri.lineOf tr.left) ∧
+    RowsOK n (firstRow n tr.top) (lastRow n height tr.bottom) (Pixman.Lemmas.TrapTri.lineOf tr.right) ∧
+    X1Ok n (firstRow n tr.top) (lastRow n height tr.bottom)
+      (Pixman.Lemmas.TrapTri.lineOf tr.left).snapX (Pixman.Lemmas.TrapTri.lineOf tr.right).snapX))
+
+theorem rasterizeTrapezoid_exact (n : Nat) (hn : Pixman.Lemmas.TrapRows.Depth n) (img : Img) (hwf : ImgWF n img)
+    (hh : img.height ≤ 32767) (tr : Trapezoid) (hv : tr.valid = true) (h : TzExact n img.height tr) :
+    rasterizeTrapezoid n img tr 0 0 =
+      { img with rows := addShape n img.width img.height img.rows (Pixman.Lemmas.TrapTri.shapeOf tr) } := by
+  obtain ⟨h1, h2, h3, h4⟩ := h
+  rcases h4 with h4 | ⟨hbt, a1, a2, a3, a4, a5⟩
+  · obtain ⟨e1, e2⟩ := rasterizeTrapezoid_nothing n hn img hwf hh tr h1 h2 h4
+    rw [e1, e2]
+  · exact rasterizeTrapezoid_eq_addShape n hn img hwf hh tr hv h1 h2 h3 hbt a1 a2 a3 a4 a5
+
+/-- `pixman_add_trapezoids (image, 0, 0, n, traps)` = adding the Spec counts of the valid trapezoids one after the other -/
+theorem addTrapezoids_eq_addShapes (n : Nat) (hn : Pixman.Lemmas.TrapRows.Depth n) (traps : List Trapezoid) :
+    ∀ (img : Img), ImgWF n img → img.height ≤ 32767 →
+      (∀ tr ∈ traps, tr.valid = true → TzExact n img.height tr) →
+      addTrapezoids n img 0 0 traps =
+        { img with rows := traps.foldl (fun rows tr =>
+            if tr.valid then addShape n img.width img.height rows (Pixman.Lemmas.TrapTri.shapeOf tr) else rows) img.rows } := by
+  induction traps with
+  | nil => intro img _ _ _; rfl
+  | cons tr rest ih =>
+    intro img hwf hh hall
+    have hw : wrap16 0 = 0 := by decide
+    simp only [addTrapezoids, hw, List.foldl_cons] at ih ⊢
+    by_cases hv : tr.valid = true
+    · have hstep := rasterizeTrapezoid_exact n hn img hwf hh tr hv (hall tr (List.mem_cons_self ..) hv)
+      simp only [hv, if_true]
+      rw [hstep]
+      have := ih { img with rows := addShape n img.width img.height img.rows (Pixman.Lemmas.TrapTri.shapeOf tr) }
+        (imgWF_addShape n img hwf _) hh (fun t ht hvt => hall t (List.mem_cons_of_mem _ ht) hvt)
+      simp only at this
+      exact this
+    · have hv' : tr.valid = false := by simpa using hv
+      simp only [hv', Bool.false_eq_true, if_false]
+      exact ih img hwf hh (fun t ht hvt => hall t (List.mem_cons_of_mem _ ht) hvt)
+
+/-! ### `pixman_add_triangles`: one triangle = its own sample count -/
+
+/-- the image after adding the triangle's own sample counts (`Spec.triCount`) -/
+def addTri (n w h : Nat) (img : Array (Array Nat)) (t : Tri) : Array (Array Nat) :=
+  (Array.range h).map fun (r : Nat) => (Array.range w).map fun (c : Nat) =>
+    pixelValue n ((img[r]?.getD #[])[c]?.getD 0) (triCount n t (c : Int) (r : Int))
+
+theorem px_addShapeIf (n : Nat) (img : Img) (hwf : ImgWF n img) (tz : Trapezoid) (r c : Nat)
+    (hr : r < img.height) (hc : c < img.width) :
+    px (if tz.valid = true then addShape n img.width img.height img.rows (Pixman.Lemmas.TrapTri.shapeOf tz) else img.rows) r c =
+      pixelValue n (px img.rows r c) (Pixman.Lemmas.TrapTri.tzCount n tz c r) := by
+  unfold Pixman.Lemmas.TrapTri.tzCount
+  by_cases hv : tz.valid = true
+  · rw [if_pos hv, if_pos hv, addShape_eq_addSpans, addSpans_px _ _ _ _ _ _ _ _ _ _ hr hc]
+    rfl
+  · rw [if_neg hv, if_neg hv, pixelValue_zero _ _ (hwf.vals r c)]
+
+theorem addTriangle_eq_triCount (n : Nat) (hn : Pixman.Lemmas.TrapRows.Depth n) (img : Img) (hwf : ImgWF n img)
+    (hh : img.height ≤ 32767) (tri : Triangle)
+    (hf : Pixman.Lemmas.TrapTri.TriFits tri) (hnd : Pixman.Lemmas.TrapTri.area2 tri ≠ 0)
+    (h0 : (triangleToTrapezoids tri).1.valid = true → TzExact n img.height (triangleToTrapezoids tri).1)
+    (h1 : (triangleToTrapezoids tri).2.valid = true → TzExact n img.height (triangleToTrapezoids tri).2) :
+    addTriangles n img 0 0 [tri] =
+      { img with rows := addTri n img.width img.height img.rows (Pixman.Lemmas.TrapTri.triOf tri) } := by
+  have hlist : addTriangles n img 0 0 [tri] =
+      addTrapezoids n img 0 0 [(triangleToTrapezoids tri).1, (triangleToTrapezoids tri).2] := rfl
+  rw [hlist, addTrapezoids_eq_addShapes n hn _ img hwf hh (by
+    intro tr htr hv
+    simp only [List.mem_cons, List.not_mem_nil, or_false] at htr
+    rcases htr with rfl | rfl
+    · exact h0 hv
+    · exact h1 hv)]
+  simp only [List.foldl_cons, List.foldl_nil]
+  congr 1
+  generalize ht0 : (triangleToTrapezoids tri).1 = t0 at *
+  generalize ht1 : (triangleToTrapezoids tri).2 = t1 at *
+  -- the image after the first trapezoid
+  have hwf1 : ImgWF n { img with rows := (if t0.valid = true then
+      addShape n img.width img.height img.rows (Pixman.Lemmas.TrapTri.shapeOf t0) else img.rows) } := by
+    by_cases hv : t0.valid = true
+    · simp only [hv, if_true]; exact imgWF_addShape n img hwf _
+    · simp only [hv]; exact hwf
+  apply rows_ext _ _ img.height img.width
+  · by_cases hv : t1.valid = true
+    · simp [hv, addShape]
+    · simp only [hv]; exact hwf1.rows_size
+  · simp [addTri]
+  · intro r hr
+    by_cases hv : t1.valid = true
+    · simp [hv, addShape, hr]
+    · simp only [hv]; exact hwf1.cols r hr
+  · intro r hr; simp [addTri, hr]
+  · intro ρ c hρ hc
+    have e2 := px_addShapeIf n _ hwf1 t1 ρ c hρ hc
+    have e1 := px_addShapeIf n img hwf t0 ρ c hρ hc
+    simp only at e2
+    rw [e2, e1, Pixman.Lemmas.TrapRow.pixelValue_add]
+    have ht := Pixman.Lemmas.TrapTri.triangle_tiles n tri hf hnd (c : Int) (ρ : Int)
+    rw [ht0, ht1] at ht
+    rw [← ht]
+    simp [px, addTri, hρ, hc]
 
 end Pixman.Lemmas.TrapSetup
